@@ -191,7 +191,14 @@ impl Running {
     pub fn close(&mut self) -> Option<Result<(), String>> {
         let server = self.server.take()?;
         let rt = self.rt.as_ref()?;
-        Some(rt.block_on(server.close()))
+        // HttpServer::close() panics ("failed to send close signal") when the server's
+        // accept-loop task is already gone; that is a finding for the caller to judge,
+        // not a reason for the harness to die
+        let r = crate::panics::catch_quiet(std::panic::AssertUnwindSafe(|| rt.block_on(server.close())));
+        Some(match r {
+            Ok(r) => r,
+            Err(p) => Err(format!("close() panicked: {}", p.message)),
+        })
     }
 
     pub fn handle(&self) -> tokio::runtime::Handle {
@@ -202,10 +209,12 @@ impl Running {
 impl Drop for Running {
     fn drop(&mut self) {
         if let (Some(server), Some(rt)) = (self.server.take(), self.rt.as_ref()) {
-            let _ = rt.block_on(async {
-                tokio::time::timeout(std::time::Duration::from_secs(10), server.close())
-                    .await
-            });
+            let _ = crate::panics::catch_quiet(std::panic::AssertUnwindSafe(|| {
+                rt.block_on(async {
+                    tokio::time::timeout(std::time::Duration::from_secs(10), server.close())
+                        .await
+                })
+            }));
         }
         if let Some(rt) = self.rt.take() {
             rt.shutdown_background();
